@@ -47,3 +47,10 @@ def fill(check, NA):
           "sides of the small-angle switch harvested per dt",
           "trusted: 80-digit power series for Gamma_1, Gamma_2; full 120-item menu to depth 2, 18-item menu to depth 3 (quick) / 4 (thorough)",
           "bounded exhaustive exploration: explicit-state BFS over input-menu words of the real step function vs closed-form flow reference model", "DESIGN.md section 4 C08")
+
+    check("C09", "exploration",
+          "for every shipped equation set (estimator through both generators, rdd2, rdd2_loglinear, bezier, mr_ref_traj) and every option set of the tier: generation succeeds, exported function set equals the "
+          "equation set (no function dropped, duplicated or renamed), header complete, gcc -Wall silent, arities / names / sparsities equal through ctypes, and every function bit-identical to Function.__call__ on an "
+          "input lattice whose path signatures (branch cells) are counted, including zero inputs that make unselected branches NaN",
+          "trusted: gcc, libm, ctypes; quick = default + each key flipped once; thorough = every combination generated and checked for completeness, pairwise covering set compiled and run; mex output not compilable here",
+          "bounded exhaustive enumeration of generator configurations x functions x input lattice, bitwise differential comparison of compiled C against CasADi", "DESIGN.md section 4 C09")
